@@ -917,8 +917,16 @@ def main(tier, replay=None):
              "sessions_pipelined": 0}
     lock = threading.Lock()
 
+    # wall-clock budget for the session phase (the machine may be shared): the corpus and the first 40 generated
+    # sessions always run, later ones are skipped once the budget is used up (counted in the evidence)
+    budget = 840.0 if tier == "thorough" else 85.0
+    guaranteed = len(sessions) - max(0, len([s for s in sessions if s["tag"].startswith("gen:")]) - 40)
+    skipped = [0]
+
     def work(i):
         s = sessions[i]
+        if i >= guaranteed and _time.time() - t0 > budget:
+            return i, None
         out = drive(vbin, ws, s["messages"], s["mode"], s.get("caps", 0))
         if s["mode"] != "step" and not out["init_failed"] and (
                 out["died_at"] is not None or out["responses"] != models[i][0][:-1]):
@@ -949,6 +957,9 @@ def main(tier, replay=None):
     with concurrent.futures.ThreadPoolExecutor(max_workers=workers) as ex:
         for i, out in ex.map(work, range(len(sessions))):
             s = sessions[i]
+            if out is None:
+                skipped[0] += 1
+                continue
             sink = Sink()
             if judge(sink, s["tag"], s, models[i], out):
                 clean += 1
@@ -978,7 +989,8 @@ def main(tier, replay=None):
     step = max(1, len(sessions) // 12)
     coq_cross_check(res, [(sessions[i]["messages"] + SHUTDOWN_TAIL, models[i]) for i in range(0, len(sessions), step)])
 
-    res.coverage["sessions"] = len(sessions)
+    res.coverage["sessions"] = len(sessions) - skipped[0]
+    res.coverage["sessions_skipped_for_time_budget"] = skipped[0]
     res.coverage["sessions_clean"] = clean
     res.coverage["failing_sessions_not_recorded"] = suppressed
     res.coverage["traffic"] = stats
